@@ -66,6 +66,24 @@ def patch_bytesio():
         gb.BytesIO = RStream
 
 
+def _proxy_intolerance(e: BaseException) -> bool:
+    """CrossHair signals 'a symbolic reached C code that cannot take it' with a TypeError that it
+    filters at top level (core.suspected_proxy_intolerance_exception) to skip the iteration.  Code
+    under test that catches TypeError (the hardened loader maps it to LoadError) would hide that
+    signal, so the harness turns it back into the TypeError CrossHair expects."""
+    m = str(e)
+    return "__hash__ method should return an integer" in m or "Symbolic" in m
+
+
+def ch_loads(fn, *a, **kw):
+    try:
+        return fn(*a, **kw)
+    except gb.DataFormatError as e:
+        if not REPLAY and _proxy_intolerance(e):
+            raise TypeError(str(e)) from None
+        raise
+
+
 def has_surrogate(s: str) -> bool:
     for c in s:
         if 0xD800 <= ord(c) <= 0xDFFF:
@@ -165,11 +183,11 @@ def roundtrip_holds(v, expect_reject: bool) -> bool:
             return False
         ch.send(None)  # the channel stays usable
         return len(gw.sent) == 1 and not ch.isclosed()
-    if not teq(v, gb.loads(d)):
+    if not teq(v, ch_loads(gb.loads, d)):
         return False
     w = WStream()
     gb.dump(w, v)
-    if not teq(v, gb.load(RStream(w.getvalue()) if not REPLAY else __import__("io").BytesIO(w.getvalue()))):
+    if not teq(v, ch_loads(gb.load, RStream(w.getvalue()) if not REPLAY else __import__("io").BytesIO(w.getvalue()))):
         return False
     ch.send(v)
     if len(gw.sent) != 1:
@@ -177,7 +195,7 @@ def roundtrip_holds(v, expect_reject: bool) -> bool:
     code, cid, data = gw.sent[0]
     if code != gb.Message.CHANNEL_DATA or cid != ch.id:
         return False
-    return teq(v, gb.loads_internal(data))
+    return teq(v, ch_loads(gb.loads_internal, data))
 
 
 # ---------------------------------------------------------------------------------------
@@ -359,9 +377,9 @@ def untrusted_load_ok(data, must_fail: bool = False, via_loads: bool = True, tol
     del _channels_made[:]
     try:
         if via_loads:
-            v = gb.loads(data)
+            v = ch_loads(gb.loads, data)
         else:
-            v = gb.load(data)  # a stream object
+            v = ch_loads(gb.load, data)  # a stream object
     except gb.DataFormatError:
         return not _tripped and not _channels_made
     except EOFError:
